@@ -376,6 +376,14 @@ fn increasing(rng: &mut Rng, n: usize, style: u64) -> Vec<f64> {
     v.into_iter().map(|c| c as f64 * scale).collect()
 }
 
+fn far_offset(rng: &mut Rng) -> (f64, f64) {
+    if rng.below(8) != 0 {
+        return (0.0, 0.0);
+    }
+    let sgn = |rng: &mut Rng| if rng.below(2) == 0 { 1.0 } else { -1.0 };
+    (sgn(rng) * (2.0f64).powi(rng.range(30, 44) as i32), sgn(rng) * (2.0f64).powi(rng.range(30, 44) as i32))
+}
+
 /// D1: axis-parallel regions on a non-uniform integer (or dyadic) grid.
 pub fn gen_rect(rng: &mut Rng, max_dim: usize) -> Case {
     let w = rng.range(1, max_dim as i64) as usize;
@@ -388,19 +396,22 @@ pub fn gen_rect(rng: &mut Rng, max_dim: usize) -> Case {
     let ys = increasing(rng, h, style);
     let merge_a = rng.below(4) != 0;
     let merge_b = rng.below(4) != 0;
-    let map = |p: P| -> Pt { (xs[p.0 as usize], ys[p.1 as usize]) };
+    // now and then far from the origin (offsets 2^30..2^44 keep integer / dyadic coordinates exactly representable and
+    // all of the library's arithmetic exact): small shapes with huge absolute coordinates
+    let (fx, fy) = far_offset(rng);
+    let map = |p: P| -> Pt { (xs[p.0 as usize] + fx, ys[p.1 as usize] + fy) };
     let a = t.to_mp(&sa, merge_a, &map);
     let b = t.to_mp(&sb, merge_b, &map);
     let faces = (0..t.faces.len()).map(|f| (t.centroid(f, &map), sa[f], sb[f])).collect();
     Case {
         family: "D1-rect",
-        desc: format!("{}x{} grid a={} b={} merge=({},{}) style={}", w, h, ka, kb, merge_a, merge_b, style),
+        desc: format!("{}x{} grid a={} b={} merge=({},{}) style={} offset=({:e},{:e})", w, h, ka, kb, merge_a, merge_b, style, fx, fy),
         a,
         b,
         exact: true,
-        exact_f32: true,
+        exact_f32: fx == 0.0,
         integer: style != 3,
-        f32_ok: true,
+        f32_ok: fx == 0.0,
         self_crossing: false,
         faces,
     }
@@ -418,20 +429,21 @@ pub fn gen_lattice(rng: &mut Rng, max_dim: usize) -> Case {
     let merge_b = rng.below(4) != 0;
     // isotropic power-of-two scale and integer offset keep the lattice property
     let k = [1.0, 1.0, 2.0, 0.5, 16.0][rng.below(5) as usize];
-    let (ox, oy) = (rng.range(-6, 6) as f64, rng.range(-6, 6) as f64);
+    let (fx, fy) = far_offset(rng);
+    let (ox, oy) = (rng.range(-6, 6) as f64 + fx, rng.range(-6, 6) as f64 + fy);
     let map = |p: P| -> Pt { (p.0 as f64 * k + ox, p.1 as f64 * k + oy) };
     let a = t.to_mp(&sa, merge_a, &map);
     let b = t.to_mp(&sb, merge_b, &map);
     let faces = (0..t.faces.len()).map(|f| (t.centroid(f, &map), sa[f], sb[f])).collect();
     Case {
         family: "D2-lattice",
-        desc: format!("{}x{} union-jack a={} b={} merge=({},{}) k={}", w, h, ka, kb, merge_a, merge_b, k),
+        desc: format!("{}x{} union-jack a={} b={} merge=({},{}) k={} offset=({:e},{:e})", w, h, ka, kb, merge_a, merge_b, k, fx, fy),
         a,
         b,
         exact: true,
-        exact_f32: true,
+        exact_f32: fx == 0.0,
         integer: k >= 1.0,
-        f32_ok: true,
+        f32_ok: fx == 0.0,
         self_crossing: false,
         faces,
     }
